@@ -173,7 +173,7 @@ func c12LoadClass(err error) string {
 	case strings.Contains(m, "reading file"):
 		return "read"
 	}
-	return "other(" + strings.ReplaceAll(m, " ", "_") + ")"
+	return "other" // anything else (permission, ENOTDIR, …): outside the model, never expected here
 }
 
 func c12ShowLoad(s *session.Session, err error) string {
